@@ -126,25 +126,17 @@ Theorem C06_prefix_number_gives_names :
 Proof. exact parse_args_prefix_names. Qed.
 Print Assumptions C06_prefix_number_gives_names.
 
-(* ---- open finding F-C06-cr-stripped.  Full statement (what the property text asks for):
-   the output lines are the input lines byte for byte. *)
-Definition C06_lines_bytewise_statement : Prop :=
+(* the output lines are the input lines byte for byte -- a CR before the LF included
+   (shard reads with strip_cr = false: regenerated flag; finding F-C06-cr-stripped, fixed) *)
+Theorem C06_lines_bytewise :
   forall (keyhash : list Z -> N) (n : N) (input : list Z), 0 < n ->
     Permutation (concat (shard keyhash n (records 10%Z shard_strip_cr input))) (records 10%Z false input).
-(* REFUTED on the unchanged code: shard reads with FilePiece's default strip_cr = true
-   (regenerated flag), "a\r\n" comes out as "a\n".  Not repaired: dedupe reads the same way,
-   changing shard alone would separate keys that dedupe identifies. *)
-Theorem C06_lines_bytewise_refuted :
-  exists (keyhash : list Z -> N) n input, 0 < n /\
-    ~ Permutation (concat (shard keyhash n (records 10%Z shard_strip_cr input))) (records 10%Z false input).
-Proof. exact shard_lines_bytewise_refuted. Qed.
-Print Assumptions C06_lines_bytewise_refuted.
-(* PARTIAL: it holds for every input without a CR directly before a LF *)
-Theorem C06_lines_bytewise_partial :
-  forall (keyhash : list Z -> N) (n : N) (input : list Z), 0 < n -> no_crlf input = true ->
-    Permutation (concat (shard keyhash n (records 10%Z shard_strip_cr input))) (records 10%Z false input).
-Proof. exact shard_lines_bytewise_partial. Qed.
-Print Assumptions C06_lines_bytewise_partial.
+Proof. exact shard_lines_bytewise. Qed.
+Print Assumptions C06_lines_bytewise.
+
+Example C06_nonvacuous_cr_kept :
+  shard_tool (fun _ => 0) 1 [97; 13; 10; 98; 10]%Z = [[97; 13; 10; 98; 10]%Z].
+Proof. vm_compute. reflexivity. Qed.
 
 Example C06_nonvacuous_shard :
   let kh := fun l : list Z => match l with [] => 0 | (b :: _)%list => Z.to_N b end in
